@@ -1,0 +1,22 @@
+//go:build verif
+
+package server
+
+import "net"
+
+// VerifConnKey exposes getConnKey (read-only) to the verification harness.
+func VerifConnKey(raddr, laddr *net.UDPAddr) string {
+	return getConnKey(raddr, laddr)
+}
+
+// VerifCanFallbackToWildcard exposes localAddrCanFallbackToWildcard.
+func VerifCanFallbackToWildcard(laddr *net.UDPAddr) bool {
+	return localAddrCanFallbackToWildcard(laddr)
+}
+
+// VerifNumConns returns the number of entries of the peer table.
+func (s *Server) VerifNumConns() int {
+	s.connsMutex.Lock()
+	defer s.connsMutex.Unlock()
+	return len(s.conns)
+}
